@@ -1,7 +1,7 @@
 import os
 import vf
 
-FILES = ["web/zz_verif_c36_test.go", "web/zz_verif_c36gen_test.go", "web/zz_verif_c36routes_test.go", "web/zz_verif_c36resp_test.go", "web/zz_verif_c36funcs_test.go"]
+FILES = ["web/zz_verif_c36_test.go", "web/zz_verif_c36gen_test.go", "web/zz_verif_c36routes_test.go", "web/zz_verif_c36resp_test.go", "web/zz_verif_c36funcs_test.go", "web/zz_verif_c36bodies_test.go"]
 
 SPEC = dict(
     level="proof",
@@ -52,7 +52,7 @@ def _gen(ctx):
     g = vf.go_harness(ctx, "web", "TestVerifC36Gen$", FILES, 1, out_name="gen.jsonl", timeout=600)
     texts = {r["file"]: r["text"] for r in g["records"] if r.get("kind") == "gen"}
     gen_dir = os.path.join(vf.COQ, "Generated")
-    ok = g["rc"] == 0 and all(f in texts for f in ("WebPages.v", "WebSinks.v", "WebRoutes.v", "WebFuncs.v"))
+    ok = g["rc"] == 0 and all(f in texts for f in ("WebPages.v", "WebSinks.v", "WebRoutes.v", "WebFuncs.v", "WebFuncBodies.v"))
     if not ok:
         # make the obligations fail loudly instead of silently re-using stale tables
         ctx.notes.append("translator failed: " + g["log"][-1500:])
@@ -74,6 +74,10 @@ def _gen(ctx):
                           "Local Open Scope string_scope.\n"
                           "Definition funcmap : list fdecl := [{| fd_name := \"translator-failed\"; fd_params := [TyUnknown]; fd_results := [TyUnknown] |}].\n"
                           "Definition func_calls : list fsite := [{| fs_tmpl := \"translator-failed\"; fs_func := \"\"; fs_args := [] |}].\n",
+            "WebFuncBodies.v": "(* translator failed *)\nFrom Coq Require Import String.\n"
+                               "From ZV Require Import Lib.Base Model.Web Model.WebFuncs Model.WebFuncsAst.\n"
+                               "Definition func_bodies : list gfunc := [{| gf_name := \"translator-failed\"%string; gf_params := []; "
+                               "gf_body := None; gf_why := \"\"%string |}].\n",
         }
     for name, text in texts.items():
         vf.write_if_changed(os.path.join(gen_dir, name), text)
@@ -82,6 +86,12 @@ def _gen(ctx):
 
 def run(ctx):
     ok, g = _gen(ctx)
+    for r in g["records"]:
+        if r.get("kind") == "info" and "func_bodies" in r:
+            fb = r["func_bodies"]
+            ctx.notes.append("template functions translated from source and compared with the model by computation: %s; outside the "
+                             "translated Go subset (tied by the correspondence only): %s" % (", ".join(fb.get("translated") or []) or "none",
+                             "; ".join("%s (%s)" % kv for kv in sorted((fb.get("opaque") or {}).items())) or "none"))
     rc = vf.standard_check(ctx, SPEC)
     if not ok:
         print("note: the C36 translator failed (obligations over Generated/WebPages.v, WebSinks.v, WebRoutes.v were made to fail): " + g["log"][-600:])
